@@ -70,6 +70,8 @@ pub struct JobResult {
 
 enum Job {
     Seed(u64),
+    /// seed run on a named engine (checks served by several engines)
+    SeedOn(String, u64),
     TraceFile(PathBuf, String),
 }
 
@@ -152,6 +154,14 @@ fn run_pool(
                     }
                     let child = child_cmd(&args, hash_seed_for(s)).spawn().expect("spawn child");
                     running.push(Running { child, label: format!("seed {s}"), started: Instant::now() });
+                }
+                Some(Job::SeedOn(eng, s)) => {
+                    let mut args = vec!["one".to_string(), eng.clone(), prop.to_string(), s.to_string()];
+                    if thorough {
+                        args.push("--thorough".into());
+                    }
+                    let child = child_cmd(&args, hash_seed_for(s)).spawn().expect("spawn child");
+                    running.push(Running { child, label: format!("seed {s} ({eng})"), started: Instant::now() });
                 }
                 Some(Job::TraceFile(p, label)) => {
                     let hs = std::fs::read_to_string(&p)
@@ -302,7 +312,11 @@ pub fn check(spec: &PropSpec, thorough: bool, base_seed: u64, max_runs: Option<u
     let dir = tmp_dir();
     // directed scenarios first, then seeds until the budget is spent
     let mut jobs = vec![];
-    let directed = crate::engines::directed(spec.engine, prop);
+    let engines: Vec<&str> = spec.engine.split(',').collect();
+    let mut directed = vec![];
+    for e in &engines {
+        directed.extend(crate::engines::directed(e, prop));
+    }
     let n_directed = directed.len();
     for (i, t) in directed.iter().enumerate() {
         let mut p = dir.clone();
@@ -310,13 +324,48 @@ pub fn check(spec: &PropSpec, thorough: bool, base_seed: u64, max_runs: Option<u
         std::fs::write(&p, serde_json::to_string(t).unwrap()).unwrap();
         jobs.push(Job::TraceFile(p, format!("directed {i}: {}", t.note.clone().unwrap_or_default())));
     }
+    // regression traces: minimised replays of defects that were repaired (or re-shaped); they run with the
+    // property's oracle armed and must stay silent (or map to a known finding)
+    let mut n_regress = 0;
+    {
+        let mut rd = verif_root();
+        rd.push("regress");
+        if let Ok(entries) = std::fs::read_dir(&rd) {
+            let mut files: Vec<PathBuf> = entries
+                .filter_map(|e| e.ok().map(|e| e.path()))
+                .filter(|p| {
+                    p.file_name()
+                        .and_then(|n| n.to_str())
+                        .map(|n| n.starts_with(&format!("{prop}-")) && n.ends_with(".json"))
+                        .unwrap_or(false)
+                })
+                .collect();
+            files.sort();
+            for f in files {
+                if let Ok(txt) = std::fs::read_to_string(&f) {
+                    if let Ok(mut t) = serde_json::from_str::<Trace>(&txt) {
+                        t.expect_fingerprint = None;
+                        let mut p = dir.clone();
+                        p.push(format!("regress-{n_regress}.json"));
+                        std::fs::write(&p, serde_json::to_string(&t).unwrap()).unwrap();
+                        jobs.push(Job::TraceFile(p, format!("regress {}", f.file_name().unwrap().to_string_lossy())));
+                        n_regress += 1;
+                    }
+                }
+            }
+        }
+    }
     let first_seed = base_seed.wrapping_mul(1_000_003);
     let cap = max_runs.unwrap_or(if thorough { 2_000_000 } else { 200_000 });
     for i in 0..cap as u64 {
-        jobs.push(Job::Seed(first_seed.wrapping_add(i)));
+        if engines.len() > 1 {
+            jobs.push(Job::SeedOn(engines[(i as usize) % engines.len()].to_string(), first_seed.wrapping_add(i)));
+        } else {
+            jobs.push(Job::Seed(first_seed.wrapping_add(i)));
+        }
     }
     let results = run_pool(
-        spec.engine,
+        engines[0],
         prop,
         thorough,
         jobs,
@@ -461,6 +510,7 @@ pub fn check(spec: &PropSpec, thorough: bool, base_seed: u64, max_runs: Option<u
             "rule": spec.rule,
             "samples": samples,
             "directed_scenarios": n_directed,
+            "regression_traces": n_regress,
             "seeded_runs": seeds_run,
             "first_seed": first_seed,
             "runs_per_hour": runs_per_hour,
